@@ -5,3 +5,8 @@ TB = "Trusted: rustc/cargo, the harness (explorer, sandbox, reference model; ref
 claim("C15",
   "Exhaustive enumeration, on the real GdsFloat64::encode/decode and on UNITS/MAG/ANGLE records via write/from_bytes, of a structured alphabet of doubles (every binary exponent of the GDSII range x sign x every value within 3 ulp of each power of two, all 1- and 2-bit fraction patterns, ...) and of normalised 8-byte reals (every exponent byte x all rounding cases), each judged by an exact integer-arithmetic reference (unique normalised encoding, round-to-nearest-even decode). Decides the property for every value of the alphabet; values outside it are not covered.",
   TB, "explicit-state exhaustive enumeration of the value alphabet on the real codec vs exact integer reference model")
+
+claim("C13",
+  "Exhaustive enumeration on the real ShapeTrait::contains (Rect, Polygon, Path, and through the Shape enum): every rectangle on a 5x5 grid, every simple polygon given by any sequence of 3..5 (thorough: also 6 on 4x4) distinct vertices on a 4x4 (thorough 5x5) grid - hence every vertex order, orientation, start vertex and collinear-vertex placement - each also with one repeated vertex, and every Manhattan path of 1..3 segments with width 0..4, each queried at every point of the surrounding grid and judged by exact integer geometry (boundary by zero cross product, winding number with half-open rule; the reference is cross-checked against an independent crossing-number implementation at start-up). Thorough adds a labelled random supplement of larger general / rectilinear / 45-degree polygons. Decides the property for all shapes of the grid alphabet; larger shapes are only sampled.",
+  TB + " Paths: only the two point sets the statement fixes are judged (end caps / corner squares are don't-care).",
+  "explicit-state exhaustive enumeration of all small-grid shapes x all grid query points on the real code vs exact integer geometry")
